@@ -316,8 +316,13 @@ def pool_alphabets(draw, spec):
     """per site a small alphabet of supported picks (so that partial terms collide often)"""
     out = []
     for i in range(len(spec["sites"])):
-        k = draw(st.integers(1, 2))
-        out.append([draw(gen.site_pick(spec, i, 1))[0] for _ in range(k)])
+        k = draw(st.integers(1, 3))
+        picks = []
+        for _ in range(k):
+            p = draw(gen.site_pick(spec, i, 1))[0]
+            if p not in picks and (p[1] != "I" or not picks):
+                picks.append(p)
+        out.append(picks)
     return out
 
 
@@ -348,32 +353,49 @@ def table_cases(draw, tier):
         terms, fl = draw(gen.term_tables(spec, 4, maxt, max_support=3))
         flags |= set(fl)
     else:
-        spec = draw(gen.model_specs(2 if mode == "pool" else 3, maxs, qn=0, kinds=SPINNY, max_dim=10 ** 9))
+        spec = draw(gen.model_specs({"pool": 2, "prodsum": 3, "pairs": 4}[mode], maxs, qn=0, kinds=SPINNY, max_dim=10 ** 9))
         n = len(spec["sites"])
         alph = draw(pool_alphabets(spec))
         terms = []
         if mode == "pool":
-            for _ in range(draw(st.integers(4, maxt))):
-                terms.append({"f": draw(gen.factors()), "ops": draw(pool_term(spec, alph, p_ident=draw(st.integers(1, 3))))})
+            # few-body terms over a small per-site alphabet (typical Hamiltonian shape: identity-prefix/suffix stars)
+            body = draw(st.integers(2, 3))
+            for _ in range(draw(st.integers(6, maxt))):
+                k = draw(st.integers(1, body))
+                sites = sorted({draw(st.integers(0, n - 1)) for _ in range(k)})
+                terms.append({"f": draw(gen.factors()),
+                              "ops": [list(alph[i][draw(st.integers(0, len(alph[i]) - 1))]) for i in sites]})
         elif mode == "pairs":
-            keep = draw(st.integers(5, 10))
+            keep = draw(st.integers(6, 10))
+            second = draw(st.booleans())
             for i in range(n):
                 for j in range(i + 1, n):
                     if draw(st.integers(0, 9)) < keep:
-                        a = alph[i][0]
-                        b = alph[j][draw(st.integers(0, len(alph[j]) - 1))]
-                        terms.append({"f": draw(gen.factors()), "ops": [list(a), list(b)]})
-                if draw(st.booleans()):
+                        terms.append({"f": draw(gen.factors()), "ops": [list(alph[i][0]), list(alph[j][0])]})
+                    if second and draw(st.integers(0, 9)) < 3:
+                        terms.append({"f": draw(gen.factors()), "ops": [list(alph[i][-1]), list(alph[j][-1])]})
+                if draw(st.integers(0, 4)) > 0:
                     terms.append({"f": draw(gen.factors()), "ops": [list(alph[i][-1])]})
-        else:  # prodsum: (sum of left partial terms) x (sum of right partial terms) + noise
+        else:  # prodsum: sum_k (sum of left partial terms)_k x (sum of right partial terms)_k + noise; the blocks are
+            # disjoint unbalanced bicliques of the cut graph (cover = sum_k min(l_k, r_k) < min(sum l_k, sum r_k))
             cut = draw(st.integers(1, n - 1))
-            Ls = [draw(pool_term(spec, alph, range(cut), 1)) for _ in range(draw(st.integers(1, 4)))]
-            Rs = [draw(pool_term(spec, alph, range(cut, n), 1)) for _ in range(draw(st.integers(1, 4)))]
-            keep = draw(st.integers(6, 10))
-            for l in Ls:
-                for rr in Rs:
-                    if draw(st.integers(0, 9)) < keep:
-                        terms.append({"f": draw(gen.factors()), "ops": [list(o) for o in l] + [list(o) for o in rr]})
+
+            def partial(sites):
+                single = [[list(a)] for i in sites for a in alph[i]]
+                double = [[list(a), list(b)] for i in sites for j in sites if i < j for a in alph[i] for b in alph[j]]
+                return single + double
+
+            cl = draw(st.permutations(partial(range(cut))))
+            cr = draw(st.permutations(partial(range(cut, n))))
+            for _ in range(draw(st.integers(2, 3))):
+                nl, nr = draw(st.sampled_from([(1, 3), (3, 1), (2, 4), (4, 2), (1, 2), (2, 1), (1, 4), (4, 1)]))
+                Ls, cl = cl[:nl], cl[nl:]
+                Rs, cr = cr[:nr], cr[nr:]
+                keep = draw(st.integers(8, 10))
+                for l in Ls:
+                    for rr in Rs:
+                        if draw(st.integers(0, 9)) < keep:
+                            terms.append({"f": draw(gen.factors()), "ops": [list(o) for o in l] + [list(o) for o in rr]})
             for _ in range(draw(st.integers(0, 4))):
                 terms.append({"f": draw(gen.factors()), "ops": draw(pool_term(spec, alph))})
         for t in terms:
